@@ -96,7 +96,15 @@ def trailing_tags(data, w, own_ape, own_v1):
     Pieces that are not owned are added to `foreign` by the caller via the returned list."""
     end = len(data)
     pieces = []
-    if end >= 128 and data[end - 128:end - 125] == b"TAG":
+
+    def ape_footer_at(e):
+        """a plausible APEv2/APEv1 footer ends at e (so the last 128 bytes are not an ID3v1 block even if they start with
+        the 'TAG' of 'APETAGEX', which happens for tags of 131 bytes)"""
+        if e < 32 or data[e - 32:e - 24] != b"APETAGEX":
+            return False
+        ver, size, count, flags = struct.unpack("<4L", data[e - 24:e - 8])
+        return ver in (1000, 2000) and 32 <= size <= e and not (flags & 0x20000000)
+    if end >= 128 and data[end - 128:end - 125] == b"TAG" and not ape_footer_at(end):
         pieces.append(("id3v1", end - 128, end))
         end -= 128
     # Lyrics3v2: "LYRICSBEGIN" ... size(6) "LYRICS200"
